@@ -154,6 +154,12 @@ class EarliestStartTimeObserver(FeatureObserver):
                 self.earliest_start_times[job_id, position] = earliest
                 earliest += operation.duration
 
+    def reset(self):
+        """Recomputes the earliest start times from the (already reset)
+        dispatcher and re-initializes the features."""
+        self._recompute_earliest_start_times()
+        super().reset()
+
     def initialize_features(self):
         """Initializes the features based on the current state of the
         dispatcher."""
